@@ -27,7 +27,7 @@ fn main() {
         }
         Some("replay") if args.len() >= 3 => runner::replay(&args[2]),
         Some("selfcheck") => {
-            let (ok, total, fails) = repo_tests::selfcheck("/repo/tests/stdout", true);
+            let (ok, total, fails) = repo_tests::selfcheck(&format!("{}/tests/stdout", subject::repo()), true);
             println!("reference self-validation: {}/{}", ok, total);
             for f in fails.iter().take(20) {
                 println!("  FAIL {}", f);
